@@ -22,6 +22,15 @@ CHECKS = {
   "validity test are decided for all inputs. The HashMap-based fit/transform/CategoryMapper are outside (not encodable).",
   "Trusts Kani/CBMC; reaches the crate-private find_new_idxs through the cfg(feature=verif) hook; OneHotEncoder::{fit,transform} end-to-end and CategoryMapper identities are not covered (std HashMap does not finish in CBMC).",
   "DESIGN.md 6/C18"),
+ "C03": (True,
+  "For every DenseMatrix/Vec of the listed concrete shapes (up to 3x2/2x3 quick, 3x4 thorough) CBMC proves, for ALL values of the stated domain, that each structural operation "
+  "(constructors, get/set, rows/columns, iteration, transpose, reshape to every compatible shape, flattening, slice over every range, take with every index pair, stacking, copy, fill/eye) "
+  "moves exactly the right bit patterns according to the logical row-major view; that element-wise/scalar arithmetic (copying == in-place), matmul, ab with all four transpose flags on non-square operands, dot, "
+  "sum/min/max/norms/means/argmax/unique/cov/binarize/equality agree with an integer oracle on the integer lattice (mixed signs, ties); that softmax hands exp the arguments x - max(x) "
+  "(largest exactly 0) and normalises in place; that var/std are accurate for moderate offsets; and that every listed operation on incompatible shapes panics while equality tests return false. "
+  "The large-offset variance clause is violated by the code (known finding C03-var-naive-offset, reported by a witness harness).",
+  "Trusts Kani/CBMC; float arithmetic is only exercised on exactly representable lattice values (no accuracy claim for sums/products of arbitrary floats); exp/powf are replaced by recorder stubs (argument-level claim); shapes with a dimension > 4, rand and Display are outside.",
+  "DESIGN.md 6/C03"),
  "C15": (True,
   "For every label/score vector of length <= 4 (5 thorough; AUC scores any finite f32 incl. ties, labels symbolic; regression targets on an integer or half-integer lattice) "
   "CBMC proves that the real accuracy, precision, recall, F-beta (beta in {1/2,1,2}), ROC-AUC, MSE, MAE and R^2 code returns exactly the value of the textbook definition "
